@@ -236,6 +236,9 @@ class AbsInt:
         return None
 
     # ---------------------------------------------------------------- evaluation
+    def ifexp(self, e, fr):
+        return self.join(self.value(e.body, fr), self.value(e.orelse, fr))
+
     def value(self, expr, fr):
         key = id(expr)
         if key in fr.memo:
@@ -272,7 +275,7 @@ class AbsInt:
         if isinstance(e, ast.BoolOp):
             return self.boolop(e, [self.value(v, fr) for v in e.values], fr)
         if isinstance(e, ast.IfExp):
-            return self.join(self.value(e.body, fr), self.value(e.orelse, fr))
+            return self.ifexp(e, fr)
         if isinstance(e, (ast.Tuple, ast.List)):
             return self.sequence(e, [self.value(x, fr) for x in e.elts], fr)
         if isinstance(e, ast.Subscript):
